@@ -114,10 +114,11 @@ pub fn msgcell(strict: bool, kind: &str, got_cell: &str, msg: &str, want: &str) 
 # enum model
 
 class Field:
-    __slots__ = ("decl", "inst", "ti_ignore", "name")
+    __slots__ = ("decl", "inst", "ti_ignore", "name", "fattr")
 
     def __init__(self, decl, inst, name=None):
         self.decl, self.inst, self.name, self.ti_ignore = decl, inst, name, False
+        self.fattr = ""  # field-level `#[unwrap(ignore)]` / `#[try_unwrap(ignore)]`: accepted, and the field is still returned
 
 
 class Variant:
@@ -230,7 +231,7 @@ class Enum:
             if v.kind == "unit":
                 out.append("    %s," % v.ident)
             elif v.kind == "tuple":
-                out.append("    %s(%s)," % (v.ident, ", ".join(("#[try_into(ignore)] " if f.ti_ignore else "") + f.decl for f in v.fields)))
+                out.append("    %s(%s)," % (v.ident, ", ".join(f.fattr + ("#[try_into(ignore)] " if f.ti_ignore else "") + f.decl for f in v.fields)))
             else:
                 out.append("    %s { %s }," % (v.ident, ", ".join(("#[try_into(ignore)] " if f.ti_ignore else "") + "%s: %s" % (f.name, f.decl) for f in v.fields)))
         out.append("}")
@@ -403,6 +404,14 @@ def gen_enum(rng, fam):
                 for v in en.variants:
                     if r.random() < 0.2:
                         v.attr[a] = "ignore"
+    # field-level `ignore` of Unwrap/TryUnwrap on fields of tuple variants: the accessors return "X's fields in declaration
+    # order" - all of them (an ignored FIELD is not an ignored variant; dropping it from the tuple loses data)
+    uw = [DERIVE_ATTR[d] for d in en.derives if d in ("Unwrap", "TryUnwrap")]
+    if uw and fam in ("full", "plain", "basic") or (uw and r.random() < 0.3 and fam not in ("varsel",)):
+        for v in en.variants:
+            if v.kind == "tuple" and v.fields and r.random() < 0.3 and all(v.attr.get(a) in (None, "ignore") for a in uw):
+                for f in r.sample(v.fields, r.randint(1, len(v.fields))):
+                    f.fattr = "".join("#[%s(ignore)] " % a for a in uw if r.random() < 0.8)
     return en
 
 
